@@ -26,6 +26,7 @@ double total(const double *v, int n);
 int countNames(char **names, int n);
 int tag(int k, std::string &label);
 #include <cstddef>
+int bump(int *v, int n);
 size_t findPos(int k);
 class Tally {
 public:
